@@ -144,6 +144,36 @@ def pair_check(ctx, c, outs):
     return None
 
 
+def difference_check(ctx, c, outs):
+    """the angle of the difference O2 - O1 (and of O1 - O2, computed afterwards in the same process) is the
+    brute-force minimum over equivalent pairs, for many seeded pairs at once"""
+    G1, G2 = groups()[c["k1"]], groups()[c["k2"]]
+    g = np.random.default_rng(c["bulk"])
+    qa = g.normal(size=(c["n"], 4))
+    qb = g.normal(size=(c["n"], 4))
+    qa /= np.linalg.norm(qa, axis=1)[:, None]
+    qb /= np.linalg.norm(qb, axis=1)[:, None]
+    O1, O2 = ori(G1, qa), ori(G2, qb)
+    with warnings.catch_warnings():
+        warnings.simplefilter("ignore")
+        try:
+            w21 = (O2 - O1).angle
+            w12 = (O1 - O2).angle
+        except NotImplementedError:
+            return None
+    ref = np.array([ang(brute_dot(G1, G2, qa[i], qb[i])) for i in range(c["n"])])
+    for nm, w in (("O2 - O1", w21), ("O1 - O2", w12)):
+        if w.shape != ref.shape:
+            return f"angle of {nm} has shape {w.shape} for {c['n']} pairs"
+        bad = np.flatnonzero(np.abs(w - ref) > TOL_ANG)
+        if bad.size:
+            i = int(bad[0])
+            return (f"angle of the difference {nm} = {float(w[i])!r} but the brute-force minimum over equivalent pairs = "
+                    f"{float(ref[i])!r} ({G1.name}, {G2.name}; q1 = {qa[i].tolist()}, q2 = {qb[i].tolist()}; "
+                    f"{bad.size} of {c['n']} pairs)")
+    return None
+
+
 def outer_check(ctx, c, outs):
     G1, G2 = groups()[c["k1"]], groups()[c["k2"]]
     s1, s2 = tuple(c["s1"]), tuple(c["s2"])
@@ -257,6 +287,7 @@ SITES = {
     "dot_model": sites.Site("dot_model", "corr", dot_check, dot_lines),
     "pairwise": sites.Site("pairwise", "prop", pair_check),
     "outer": sites.Site("outer", "prop", outer_check),
+    "difference": sites.Site("difference", "prop", difference_check),
     "distance_matrix": sites.Site("distance_matrix", "prop", distance_check),
     "mis_distance": sites.Site("mis_distance", "prop", mis_check, mis_lines),
 }
@@ -310,6 +341,18 @@ def generate(ctx):
         yield "pairwise", c
         ctx.count("dot_model/two_groups", ("m2", k1, k2, tuple(q1[0])))
         yield "dot_model", {"k1": k1, "k2": k2, "q1": q1[0], "q2": q2[0]}
+    # the angle of the difference, both orders in one process: every group with itself (few pairs), interphase pairs
+    # from different crystal families (product sets G1.G2 != G2.G1) in bulk, seeded random pairs
+    names = [G.name for G in gs]
+    nb = 200 if ctx.tier == "quick" else 2000
+    fam = [("432", "622"), ("23", "32"), ("m-3m", "6/mmm"), ("432", "32"), ("m-3m", "6mm"), ("422", "32"), ("-43m", "-6m2"),
+           ("222", "3"), ("m-3", "-3m"), ("432", "6")]
+    plist = [(names.index(a), names.index(b), nb) for a, b in fam if a in names and b in names]
+    plist += [(k, k, 12) for k in range(nG)]
+    plist += [(int(rng.integers(nG)), int(rng.integers(nG)), 40) for _ in range(10 if ctx.tier == "quick" else 100)]
+    for k1, k2, n in plist:
+        ctx.count("difference/" + ("same" if k1 == k2 else "two_groups"), ("df", k1, k2, n), nontrivial=gs[k1].size > 1)
+        yield "difference", {"k1": k1, "k2": k2, "bulk": int(rng.integers(1 << 31)), "n": n}
     # outer products: shape pairs with different numbers of dimensions, eager and lazy
     shapes = [(1,), (2,), (3,), (1, 2), (2, 1), (2, 2), (1, 1, 2)]
     nout = 24 if ctx.tier == "quick" else 300
